@@ -37,7 +37,7 @@ def configure(tier, avoid):
         max_stmts=14 if quick else 30, max_depth=2 if quick else 3,
         expr_depth=2, max_procs=2, empty_blocks=0.3, avoid=avoid, mixed_case_types=True,
         features={'print_using': False})
-    return {'examples': 400 if quick else 6000, 'params': p,
+    return {'examples': 400 if quick else 3000, 'params': p,
             'bounds': {'max_stmts': p.max_stmts, 'max_depth': p.max_depth,
                        'levels': list(LEVELS)},
             'tick_budget': 60000}
